@@ -117,6 +117,8 @@ func runC09(c *Ctx) {
 	var gate *ssa.Call
 	var listing *ssa.Call
 	var recCalls []*ssa.Call
+	wrappersC09 := listingWrappers(p)
+	isListingWrapper := func(f *ssa.Function) bool { _, ok := wrappersC09[f]; return ok }
 	core.Instrs(rec, func(_ *ssa.BasicBlock, _ int, ins ssa.Instruction) {
 		ci, ok := ins.(*ssa.Call)
 		if !ok {
@@ -127,6 +129,8 @@ func runC09(c *Ctx) {
 			gate = ci
 		case ci.Common().IsInvoke() && ci.Common().Method.Name() == "GetRelationTuples":
 			listing = ci
+		case ci.Common().StaticCallee() != nil && isListingWrapper(ci.Common().StaticCallee()):
+			listing = ci // one page fetched through a helper
 		case ci.Common().StaticCallee() != nil && cycle[ci.Common().StaticCallee()]:
 			recCalls = append(recCalls, ci)
 		}
